@@ -23,6 +23,16 @@ the specification every cell is a function of its group's row list. Here:
         summaries); `agg_concat_merge_summaries`, `table_of_concat_is_merge_of_part_summaries` with the summaries NAMED:
         `partSummaries O q rᵢ` is what part i remembers, the summaries of `r₁ ++ r₂` are `mergeSummaries q S₁ S₂`, every
         table is `tableOfSummaries` of its summaries;
+        WHAT IS MERGED ARE THE PARTS' SUMMARIES — per group and aggregate: count, sum, sum of squares, distinct set, sorted
+        multiset, extreme — taken BEFORE HAVING, transforms, DISTINCT and LIMIT, not the parts' printed tables. With HAVING the
+        parts' RESULT tables do not determine the whole (`… WHERE v > 0 GROUP BY k HAVING COUNT(*) > 1`: a group with one row in
+        each part is printed by neither part and is in the result of the whole;
+        `Props/PipelineLines.lean` `having_parts_do_not_determine_the_whole`, kernel-evaluated on the program model): the
+        sentence's "key-wise combination of the results over each part" is proved at RESULT level for statements without HAVING /
+        transforms made of COUNT, SUM(INT), MIN, MAX (`agg_concat_merge`) and at SUMMARY level for everything else;
+  * which cuts are covered: the run-level theorems ask each part to be outside D10 (`= some (_, "")`); for statements with
+        COUNT(*) every cut is (`deviation_class_empty_of_count_star`, `batch_run_of_split_all_cuts_of_count_star`); see the
+        section "which cuts the split theorems cover";
   * `batch_run_of_split_is_merge_of_summaries`, `batch_run_of_concat_is_merge_of_summaries` at the level of the executed
         batch run: what `runBatch` prints for `l₁ ++ l₂` (one file, or the two files `[l₁, l₂]`) is the table of the merged
         per-part summaries (`Props/PipelineLines.lean` `split_input_is_merge_of_summaries` carries it to `runText`);
@@ -208,16 +218,29 @@ GROUP BY, any WHERE; no arithmetic wrapper, HAVING, DISTINCT, LIMIT — `Mergeab
 whenever the specification fixes the three tables, the table over `r₁ ++ r₂` is the key-wise combination `mergeKeyed`
 of the tables over `r₁` and `r₂` — the set of groups is the union (ascending, each once), a group present in both
 parts combines cell by cell (`mergeCell`: counts and sums add with NULL neutral, minima and maxima combine with NULL
-neutral, key columns stay), a group present in one part keeps its row. Tables are taken with the group key attached
-(`T.map (·.2)` are the tables themselves). `hint` = the SUM arguments are INT (for REAL the property's exactness
-proviso would be needed: see `concat_sum_adds_real`). -/
+neutral, key columns stay), a group present in one part keeps its row. Without HAVING the parts' RESULT tables are their
+summaries, which is why this result-level form exists for these statements only (see `having_parts_do_not_determine_the_whole`).
+Tables are taken with the group key attached, and the keyed tables are PINNED: `Tᵢ` is `keyedTable O q kᵢ` — the
+specification's rows of part i, each labelled with ITS group's key, `kᵢ` the admitted rows of part i — and `T` that of
+`k₁ ++ k₂`; `T.map (·.2)`, `Tᵢ.map (·.2)` are the tables themselves. (The label matters when the key is not in the select
+list: rows of different groups need not be distinguishable by their cells.) `hint` = the SUM arguments are INT (for REAL
+the property's exactness proviso would be needed: see `concat_sum_adds_real`). -/
 theorem agg_concat_merge {O : Oracles} {q : AggStmt} (hm : MergeableStmt q) (r₁ r₂ : List Env) {t t₁ t₂ : List (List Value)}
     (h : table O q (r₁ ++ r₂) = some t) (h₁ : table O q r₁ = some t₁) (h₂ : table O q r₂ = some t₂)
     (hint : ∀ k₁ k₂, keyedRows O q r₁ = some k₁ → keyedRows O q r₂ = some k₂ →
       ∀ k, ∀ item ∈ q.items, ∀ e v1 v2, item.kind = .sum e → arguments O q item.kind (rowsOfKey k k₁) = some v1 →
         arguments O q item.kind (rowsOfKey k k₂) = some v2 → (ints (nonNull v1)).isSome ∧ (ints (nonNull v2)).isSome) :
-    ∃ T T₁ T₂, t = T.map (·.2) ∧ t₁ = T₁.map (·.2) ∧ t₂ = T₂.map (·.2) ∧ T = mergeKeyed q T₁ T₂ :=
-  table_concat_merge hm r₁ r₂ h h₁ h₂ hint
+    ∃ k₁ k₂ T T₁ T₂, keyedRows O q r₁ = some k₁ ∧ keyedRows O q r₂ = some k₂ ∧ keyedRows O q (r₁ ++ r₂) = some (k₁ ++ k₂) ∧
+      keyedTable O q (k₁ ++ k₂) = some T ∧ keyedTable O q k₁ = some T₁ ∧ keyedTable O q k₂ = some T₂ ∧
+      t = T.map (·.2) ∧ t₁ = T₁.map (·.2) ∧ t₂ = T₂.map (·.2) ∧ T = mergeKeyed q T₁ T₂ := by
+  obtain ⟨k, T, hk, hex, hT, ht⟩ := keyed_of_table hm h
+  obtain ⟨k₁, T₁, hk₁, _, hT₁, ht₁⟩ := keyed_of_table hm h₁
+  obtain ⟨k₂, T₂, hk₂, _, hT₂, ht₂⟩ := keyed_of_table hm h₂
+  have happ := keyedRows_append O q r₁ r₂ hk₁ hk₂
+  have hkk : k = k₁ ++ k₂ := by rw [hk] at happ; exact Option.some.inj happ
+  subst hkk
+  exact ⟨k₁, k₂, T, T₁, T₂, hk₁, hk₂, happ, hT, hT₁, hT₂, ht, ht₁, ht₂,
+    keyedTable_concat hm k₁ k₂ hex hT hT₁ hT₂ (hint k₁ k₂ hk₁ hk₂)⟩
 
 /-- **`agg_concat_merge` for all the aggregates the property names.** For every statement whose aggregates are COUNT(*),
 COUNT(c), COUNT(DISTINCT c), SUM, AVG, STDDEV, VARIANCE, MIN, MAX, PERCENTILE, BOOL_AND, BOOL_OR — any GROUP BY, WHERE,
@@ -229,7 +252,11 @@ maxima combine, conjunctions / disjunctions combine, PERCENTILE's sorted multise
 keeps its summaries. Provisos (`SplitSafe`, per group): for REAL addends (and their squares) `RealAddLaws` on the addends
 of both parts together — an assumption about IEEE addition, see the header; vacuous for non-REAL sums; PERCENTILE values
 are exact (no `0.0` next to `-0.0`). `StmtWF` holds for every lowered
-statement (`Props.Pipeline.lowered_aggregate_is_wellformed`). -/
+statement (`Props.Pipeline.lowered_aggregate_is_wellformed`).
+NOTE what is combined: `S₁`, `S₂` are the parts' keyed SUMMARIES — one per group that has a row passing WHERE, BEFORE HAVING,
+transforms, DISTINCT, LIMIT — not the parts' result tables `t₁`, `t₂`; `tableOfSummaries` applies HAVING etc. afterwards. With
+HAVING (or LIMIT / DISTINCT) `t₁` and `t₂` do NOT determine `t`: a group that fails HAVING in both parts can pass it in the whole
+(`Props/PipelineLines.lean` `having_parts_do_not_determine_the_whole`). The result-level statement is `agg_concat_merge`. -/
 theorem agg_concat_merge_all {O : Oracles} {q : AggStmt} (hwf : StmtWF q)
     (hOI : ∀ kind ∈ slotKinds q, orderInsensitive kind = true) (r₁ r₂ : List Env) {t t₁ t₂ : List (List Value)}
     (h : table O q (r₁ ++ r₂) = some t) (h₁ : table O q r₁ = some t₁) (h₂ : table O q r₂ = some t₂)
@@ -260,7 +287,10 @@ theorem agg_concat_merge_summaries {O : Oracles} {q : AggStmt} (hwf : StmtWF q)
 
 /-- … and without `∃`, as equations between functions of the inputs: the summaries of the whole are the merged summaries
 of the parts, and every one of the three tables is `tableOfSummaries` of its summaries — so the table over `r₁ ++ r₂` is
-determined by `partSummaries O q r₁` and `partSummaries O q r₂` -/
+determined by `partSummaries O q r₁` and `partSummaries O q r₂`: the SUMMARIES of the rows passing WHERE, taken BEFORE HAVING /
+transforms / DISTINCT / LIMIT. It is NOT determined by the parts' tables `table O q rᵢ` when the statement has HAVING: on
+`… WHERE v > 0 GROUP BY k HAVING COUNT(*) > 1` with a group that has one row in each part both part tables omit the group and the
+whole shows it; all hypotheses of this theorem hold there (`Props/PipelineLines.lean` `having_parts_do_not_determine_the_whole`) -/
 theorem table_of_concat_is_merge_of_part_summaries {O : Oracles} {q : AggStmt} (hwf : StmtWF q)
     (hOI : ∀ kind ∈ slotKinds q, orderInsensitive kind = true) (r₁ r₂ : List Env) {t t₁ t₂ : List (List Value)}
     (h : table O q (r₁ ++ r₂) = some t) (h₁ : table O q r₁ = some t₁) (h₂ : table O q r₂ = some t₂)
@@ -281,7 +311,12 @@ empty deviation class (C04: D10, D15) for the two parts; its class `cls` for the
 `specBatch_concat_class` — and `SplitSafe` holds per group, there are — explicitly: `Sᵢ = partSummaries` of the
 rows of part i — keyed summaries `S₁`, `S₂` such that `runBatch` over part i prints `tableOfSummaries O q Sᵢ` and counts the
 part's lines, and `runBatch` over the whole prints `tableOfSummaries O q (mergeSummaries q S₁ S₂)` and counts all lines
-(`tableOut q t n` = the table `t` under the statement's column names printed once, `n` lines, no error). -/
+(`tableOut q t n` = the table `t` under the statement's column names printed once, `n` lines, no error).
+Two things to read carefully. (1) Merged are the parts' SUMMARIES before HAVING, not what the part runs print (with HAVING the
+printed tables do not determine the whole). (2) `h₁`, `h₂` with the class `""` EXCLUDE every cut that leaves a group without a
+value entry (D10's shape) in a part — all cuts of `SELECT k … GROUP BY k`, and cuts after which a part has a group whose COUNT(c) /
+COUNT(DISTINCT c) / PERCENTILE / BOOL_AND / BOOL_OR arguments are all NULL when the statement has no other aggregate. For
+statements with COUNT(*) no cut is excluded: `batch_run_of_split_all_cuts_of_count_star`. -/
 theorem batch_run_of_split_is_merge_of_summaries {O : Oracles} {qy : Query} {q : AggStmt} (hq : qy.stmt = .aggregate q)
     (hwf : StmtWF q) (hj : qy.join = none) (hOI : ∀ kind ∈ slotKinds q, orderInsensitive kind = true) (joined : List FileLine)
     {f f₁ f₂ : List (List FileLine)} (hf : f.flatten = f₁.flatten ++ f₂.flatten) {ro ro₁ ro₂ : RunOut} {cls : String}
@@ -308,6 +343,57 @@ theorem deviation_class_of_concat {O : Oracles} {q : AggStmt} (hwf : StmtWF q)
     (hk₁ : keyedRows O q r₁ = some k₁) (hk₂ : keyedRows O q r₂ = some k₂)
     (hc₁ : deviationClass O q r₁ = "") (hc₂ : deviationClass O q r₂ = "") : deviationClass O q (r₁ ++ r₂) = "" :=
   deviationClass_concat hwf hOI h hk₁ hk₂ hc₁ hc₂
+
+/-! ### which cuts the split theorems cover, and statements for which EVERY cut is covered (COUNT(*) present)
+
+The split theorems at run level (`batch_run_of_split_is_merge_of_summaries`, `batch_run_of_concat_is_merge_of_summaries`,
+`Props/PipelineLines.lean` `split_input_is_merge_of_summaries`) ask the specification's answer for each PART to carry the empty
+deviation class: `Spec.Agg.batch … fᵢ = some (_, "")`. That EXCLUDES every cut that leaves, in one of the two parts, a group in
+which no aggregate of the statement creates an entry (the shape of finding D10: `SELECT k … GROUP BY k` with key columns only —
+every cut; a statement whose only aggregates are COUNT(c) / COUNT(DISTINCT c) / PERCENTILE / BOOL_AND / BOOL_OR over a column
+that is NULL on all rows of some group of a part — even when the whole input has non-NULL values for that group, see the example
+at the end: the converse of `deviation_class_of_concat` fails). There the MODEL of a part run (which mirrors D10) differs from the
+specification's table of that part, so nothing is claimed about the part's run, although the program treats such cuts
+consistently. (D15 cannot arise: the statements of C15 have no ARRAY_AGG, `arrayAggFirstNull_false`.)
+
+For a statement with `COUNT(*)` in the select list or in HAVING no such group exists — COUNT(*) creates an entry for every group
+that has a row (`deviation_class_empty_of_count_star`) — so for these statements the split theorems hold for ALL CUT POINTS, with no
+hypothesis on the classes (`batch_run_of_split_all_cuts_of_count_star`). -/
+
+/-- **no input falls into D10 / D15 for an order-insensitive statement with COUNT(*)** (in the select list or in HAVING): the
+deviation class is empty for every list of rows — no hypothesis on the rows, the keys or the values. COUNT(*) creates an entry
+for every group that has a row (`groupVisible_of_countStar`), and without ARRAY_AGG nothing is refused. -/
+theorem deviation_class_empty_of_count_star {O : Oracles} {q : AggStmt}
+    (hOI : ∀ kind ∈ slotKinds q, orderInsensitive kind = true) (hc : AggKind.count none false ∈ slotKinds q)
+    (envs : List Env) : deviationClass O q envs = "" := deviationClass_empty_of_countStar hOI hc envs
+
+/-- **all cut points, for statements with COUNT(*)** (`batch_run_of_split_is_merge_of_summaries` without the hypothesis on
+the parts' classes): for an aggregate statement without join whose aggregates are order-insensitive and which has COUNT(*) in
+its select list or in HAVING, and file lists with `f.flatten = f₁.flatten ++ f₂.flatten` — ANY cut —: whenever the
+specification answers for the three inputs (whatever classes `cls`, `c₁`, `c₂` it reports: they are empty) and `SplitSafe` holds
+per group, `runBatch` over part i prints the table of `Sᵢ = partSummaries` of part i and `runBatch` over the whole prints the
+table of `mergeSummaries q S₁ S₂`, every line counted. -/
+theorem batch_run_of_split_all_cuts_of_count_star {O : Oracles} {qy : Query} {q : AggStmt} (hq : qy.stmt = .aggregate q)
+    (hwf : StmtWF q) (hj : qy.join = none) (hOI : ∀ kind ∈ slotKinds q, orderInsensitive kind = true)
+    (hc : AggKind.count none false ∈ slotKinds q) (joined : List FileLine)
+    {f f₁ f₂ : List (List FileLine)} (hf : f.flatten = f₁.flatten ++ f₂.flatten) {ro ro₁ ro₂ : RunOut} {cls c₁ c₂ : String}
+    (h : Spec.Agg.batch O qy q joined f = some (ro, cls)) (h₁ : Spec.Agg.batch O qy q joined f₁ = some (ro₁, c₁))
+    (h₂ : Spec.Agg.batch O qy q joined f₂ = some (ro₂, c₂))
+    (hsafe : ∀ k₁ k₂, keyedRows O q (envsOf qy.table f₁.flatten) = some k₁ → keyedRows O q (envsOf qy.table f₂.flatten) = some k₂ →
+      ∀ k, SplitSafe O q (rowsOfKey k k₁) (rowsOfKey k k₂)) :
+    c₁ = "" ∧ c₂ = "" ∧ cls = "" ∧
+    ∃ S₁ S₂ t₁ t₂ t,
+      partSummaries O q (envsOf qy.table f₁.flatten) = some S₁ ∧ partSummaries O q (envsOf qy.table f₂.flatten) = some S₂ ∧
+      tableOfSummaries O q S₁ = some t₁ ∧ tableOfSummaries O q S₂ = some t₂ ∧
+      tableOfSummaries O q (mergeSummaries q S₁ S₂) = some t ∧
+      runBatch O qy joined f₁ none = tableOut q t₁ f₁.flatten.length ∧
+      runBatch O qy joined f₂ none = tableOut q t₂ f₂.flatten.length ∧
+      runBatch O qy joined f none = tableOut q t (f₁.flatten.length + f₂.flatten.length) := by
+  have e₁ : c₁ = "" := specBatch_class_of_countStar hj hOI hc h₁
+  have e₂ : c₂ = "" := specBatch_class_of_countStar hj hOI hc h₂
+  have e : cls = "" := specBatch_class_of_countStar hj hOI hc h
+  subst e₁; subst e₂
+  exact ⟨rfl, rfl, e, runBatch_concat_merge_summaries hq hwf hj hOI joined hf h h₁ h₂ hsafe⟩
 
 /-- what a batch run answers for keyed summaries `S` and `n` lines read: their table printed once (`none`: HAVING or a
 transform has no value on the finished summaries) -/
@@ -529,6 +615,10 @@ def exAll : AggStmt :=
   { exPct with items := exPct.items ++ [{ name := "count8", kind := .count (some "v") true, transform := none }] }
 theorem exAll_wf : StmtWF exAll := ⟨rfl, fun _ => rfl⟩
 theorem exAll_kinds : ∀ kind ∈ slotKinds exAll, orderInsensitive kind = true := by decide
+
+/-- `exAll` has COUNT(*): no input falls into D10 / D15 and every cut is covered (`batch_run_of_split_all_cuts_of_count_star`) -/
+example : AggKind.count none false ∈ slotKinds exAll ∧ ∀ envs, deviationClass {} exAll envs = "" :=
+  ⟨by simp [slotKinds, exAll, exPct, exSumMin], deviation_class_empty_of_count_star exAll_kinds (by simp [slotKinds, exAll, exPct, exSumMin])⟩
 
 /-- part two: rows (a, 5), (c, 4), (b, 7) — part one is `exRows`: (a, 3), (b, 7), (a, NULL), (a, -1), (b, 2) -/
 def exPart₂ : List Env := [rowKV 97 (.int 5), rowKV 99 (.int 4), rowKV 98 (.int 7)]
